@@ -190,6 +190,8 @@ def run(ctx):
                             r2.ok("split@%s" % caller.split("::")[-1], "list path splits the typed text with the colon flag off, like the single-string path")
                         else:
                             r2.violation("split@%s" % caller.split("::")[-1], "list path splits %r with flag %r (single-string path uses false)" % (a0, flag), site_of(cb, sbb))
+                # the wrapping parts are the parser's conversion of the split's own parts, on every path (what the single-string path does too)
+                _wrap_conversion(r2, prog, caller, cb, is_phonetic_parser)
                 # nothing shrinks the list in the caller
                 shrink = [(bb2, t2) for (bb2, t2) in cb.calls() if any(callee_name(t2).endswith(s) for s in ("::truncate", "::retain", "::drain", "Vec::<T, A>::pop",
                           "Vec::<T, A>::remove", "::split_off", "::swap_remove", "Vec::<T, A>::clear")) and "Vec<suggestion::Rank>" in t2["args"][0]["place"]["ty"]]
@@ -206,7 +208,7 @@ def run(ctx):
                 r2.violation("kept@%s" % short, "the list is shrunk after the transliteration push", site_of(b, shrink[0][0]))
     if not found:
         r2.violation("push", "no push of the phonetic parser's conversion of word() was found in the list builders", common.fn_line(prog, gs))
-    r2.floor(5, "push, wrap, reached, split, kept")
+    r2.floor(6, "push, wrap, reached, split, wrap-conv, kept")
 
     # ---------------- R3 key→char table
     r3 = chk.rule("C03.R3", "key→character table agrees with the key names (US keyboard) and with the sibling layout table",
@@ -312,6 +314,51 @@ def run(ctx):
                      % " ".join("U+%04X" % ord(c) for c in bad1), common.fn_line(prog, sp))
     else:
         r4.ok("single-tests", "single-character tests: %s — no letter, digit or Bengali sign" % (" ".join(sorted({repr(c) for c, w in singles})) or "none"))
+
+
+def _wrap_conversion(r2, prog, caller, cb, is_phonetic_parser):
+    """In the list builder the leading / trailing parts are replaced by `parser.convert(part)` — through the split type's mapping method with a
+    closure, whose every return is (convert(leading), convert(trailing)) with nothing deciding by content whether to convert."""
+    from engine.analyses import subst_upvars
+    from . import roles as _roles, c17 as _c17
+    key = "wrap-conv@%s" % caller.split("::")[-1]
+    hits = []
+    for (bb, t) in cb.calls():
+        g = callee_name(t)
+        if g in prog.fns and (prog.fns[g].get("impl") or {}).get("self", "").startswith(_c17.SPLIT_TY):
+            for a in t["args"]:
+                e = strip_refs(cb.expr_operand(a))
+                if e.k == "agg" and str(e.a[0]).startswith("closure:"):
+                    hits.append((bb, t, str(e.a[0])[len("closure:"):]))
+    if len(hits) != 1:
+        r2.undecidable(key, "expected one mapping of the split value's wrapping parts through a closure in the list builder, found %d" % len(hits), common.fn_line(prog, caller))
+        return
+    bb, t, ck = hits[0]
+    if not all(cb.dominates(bb, rb) for rb in cb.return_blocks):
+        r2.violation(key, "the conversion of the wrapping parts is skipped on some path of the list builder", site_of(cb, bb))
+        return
+    try:
+        kb = _roles.ib(prog, ck)
+    except Exception:
+        kb = prog.body(ck)
+    ret = strip_refs(kb.expr_local(0))
+    comps = ret.a[1] if (ret.k == "agg" and ret.a[0] == "tuple") else None
+    if comps is None or len(comps) != 2:
+        r2.violation(key, "the mapping closure does not return (convert(leading), convert(trailing)) on every path: %s" % (repr(ret)[:200],), common.fn_line(prog, ck))
+        return
+    want = [2, 3]
+    for i, c in enumerate(comps):
+        e = peel_conv(c)
+        okc = e.k == "call" and e.a[0].endswith("Parser::convert") and len(e.a[1]) == 2
+        if okc:
+            par = subst_upvars(prog, ck, e.a[1][0])
+            arg = strip_refs(peel_conv(e.a[1][1]))
+            okc = is_phonetic_parser(par) and arg.k == "arg" and arg.a[0] == want[i]
+        if not okc:
+            r2.violation(key, "component %d of the mapping closure is %s, not the phonetic parser's conversion of that part on every path — the candidates' punctuation "
+                         "then differs from the transliteration of the typed punctuation" % (i, repr(e)[:200]), common.fn_line(prog, ck))
+            return
+    r2.ok(key, "leading / trailing := phonetic.convert(leading) / phonetic.convert(trailing), unconditionally")
 
 
 def _converted_part(prog, b, v, acc, is_phonetic_parser):
